@@ -243,6 +243,40 @@ CLAIMED = {
                 "(value carried by the block).",
         "technique": "Coq proof (refinement to a decision table over history-derived readings) + per-process correspondence by vm_compute",
     },
+    "C15": {
+        "text": "Theorems C15_lock_order_no_deadlock / C15_managers_no_deadlock (Props/C15.v): any number of threads, each "
+                "running any program of lock acquisitions and releases that respects a rank order and releases what it takes, "
+                "reaches no deadlock in any interleaving; the acquisition contexts the managers are known to have all respect "
+                "the order lock_rank (C15_known_contexts_ordered), and an inverted order does deadlock "
+                "(C15_inverted_order_deadlocks). The tie: on every run the lock profile of each manager call and entry "
+                "(lock about to be taken, locks held) is observed on the implementation and must lie in the model's context "
+                "table; concurrent calls are run under forced interleavings of the lock scheduling points with a deadlock / "
+                "panic / poisoning verdict.",
+        "design_ref": "DESIGN.md §6 C15",
+        "note": "Partial: deadlock freedom is a theorem for the sixteen static locks of the rule managers and the node store "
+                "(reader/writer locks treated as exclusive); the per-breaker state mutex and the listener lock inside it are "
+                "outside the observed profile; absence of panics under concurrency is checked on the implementation under "
+                "forced schedules, not proved for all interleavings. Trusted: Coq kernel + VM, the harness scheduler with "
+                "time-out based blocked-thread detection, the placement of the scheduling points, try_lock as reader of held locks.",
+        "technique": "Coq proof (lock-order theorem over all interleavings) + observed lock profiles checked against the model's context table + forced-schedule runs of the real managers",
+    },
+    "C16": {
+        "text": "Theorem C16_atomic_transitions_every_schedule (Props/C16.v) over a micro-step model of try_pass / "
+                "on_request_complete / the four guarded transitions, with threads running from one scheduling point of the "
+                "breaker to the next: for every rule, sequential prelude, thread count, program and schedule (incl. clock "
+                "advances) the common log satisfies: listeners see a valid path of the state machine, each transition once; a "
+                "request is admitted only while Closed or as the single probe of the Open to Half-Open transition it performed "
+                "itself; that transition never happens before the retry deadline in force. C16_listeners_in_step: the state "
+                "told to listeners is the breaker's state. C16_all_threads_finish. C16_unchecked_deadline_refuted: without the "
+                "deadline re-check under the lock (the code before the fix) a schedule admits a second probe before the new deadline.",
+        "design_ref": "DESIGN.md §6 C16",
+        "note": "Trusted: Coq kernel + VM; stdlib classical axioms via Flocq (threshold ratios); the cooperative scheduler of the "
+                "harness and the placement of the scheduling points (before every state read through current_state() and before "
+                "every from_ function); the mutex-protected compare-and-set is one atomic step of the model; the model is compared "
+                "with real threads under forced schedules: whole point trace, listener events with thread / clock / deadline, "
+                "build results and exits.",
+        "technique": "Coq proof (segment-level invariant over all schedules of a micro-step model) + forced-schedule correspondence with real threads by vm_compute",
+    },
 }
 
 REASON_TODO = "not yet covered by the Coq development in this revision (planned, see DESIGN.md §6); no check is claimed"
@@ -298,7 +332,7 @@ def main():
 
 
 NA = {}
-HOOK_COMMITS = ["28ce0b4", "ef616a0", "1b90b9f", "34a6ecc", "960e001", "6201ed7", "7bc2941"]
+HOOK_COMMITS = ["28ce0b4", "ef616a0", "1b90b9f", "34a6ecc", "960e001", "6201ed7", "7bc2941", "7883235", "f5572d6", "035b69f"]
 
 if __name__ == "__main__":
     main()
